@@ -1,8 +1,14 @@
 import GnarkVerif.Props.C15
 open GV.Transcript
+#print axioms C15_unchanged_or_no_error
 #print axioms C15_error_leaves_state
 #print axioms C15_inv_step
 #print axioms C15_reachable_inv
 #print axioms C15_compute_is_spec
 #print axioms C15_recompute_same
 #print axioms C15_bind_ok
+#print axioms C15_refused_write
+#print axioms C15_refused_name
+#print axioms C15_hash_error_only_if_refused
+#print axioms C15_stream_spec
+#print axioms C15_stream_no_hash_error
